@@ -25,3 +25,110 @@ pub fn memchr3(n1: u8, n2: u8, n3: u8, haystack: &[u8]) -> Option<usize> {
     }
     None
 }
+
+pub fn memrchr(n1: u8, haystack: &[u8]) -> Option<usize> {
+    let mut i = haystack.len();
+    while i > 0 {
+        i -= 1;
+        if haystack[i] == n1 { return Some(i); }
+    }
+    None
+}
+pub fn memrchr2(n1: u8, n2: u8, haystack: &[u8]) -> Option<usize> {
+    let mut i = haystack.len();
+    while i > 0 {
+        i -= 1;
+        let b = haystack[i];
+        if b == n1 || b == n2 { return Some(i); }
+    }
+    None
+}
+pub fn memrchr3(n1: u8, n2: u8, n3: u8, haystack: &[u8]) -> Option<usize> {
+    let mut i = haystack.len();
+    while i > 0 {
+        i -= 1;
+        let b = haystack[i];
+        if b == n1 || b == n2 || b == n3 { return Some(i); }
+    }
+    None
+}
+
+/// Iterator over all positions of up to three needles (documented contract of memchr's `Memchr*` iterators).
+pub struct Memchr<'h> {
+    needles: [u8; 3],
+    count: usize,
+    haystack: &'h [u8],
+    front: usize,
+    back: usize,
+}
+pub type Memchr2<'h> = Memchr<'h>;
+pub type Memchr3<'h> = Memchr<'h>;
+
+impl<'h> Memchr<'h> {
+    fn is_needle(&self, b: u8) -> bool {
+        let mut i = 0;
+        while i < self.count {
+            if self.needles[i] == b { return true; }
+            i += 1;
+        }
+        false
+    }
+}
+impl<'h> Iterator for Memchr<'h> {
+    type Item = usize;
+    fn next(&mut self) -> Option<usize> {
+        while self.front < self.back {
+            let i = self.front;
+            self.front += 1;
+            if self.is_needle(self.haystack[i]) { return Some(i); }
+        }
+        None
+    }
+}
+impl<'h> DoubleEndedIterator for Memchr<'h> {
+    fn next_back(&mut self) -> Option<usize> {
+        while self.back > self.front {
+            self.back -= 1;
+            if self.is_needle(self.haystack[self.back]) { return Some(self.back); }
+        }
+        None
+    }
+}
+pub fn memchr_iter(n1: u8, haystack: &[u8]) -> Memchr<'_> {
+    Memchr { needles: [n1, 0, 0], count: 1, haystack, front: 0, back: haystack.len() }
+}
+pub fn memchr2_iter(n1: u8, n2: u8, haystack: &[u8]) -> Memchr<'_> {
+    Memchr { needles: [n1, n2, 0], count: 2, haystack, front: 0, back: haystack.len() }
+}
+pub fn memchr3_iter(n1: u8, n2: u8, n3: u8, haystack: &[u8]) -> Memchr<'_> {
+    Memchr { needles: [n1, n2, n3], count: 3, haystack, front: 0, back: haystack.len() }
+}
+pub fn memrchr_iter(n1: u8, haystack: &[u8]) -> core::iter::Rev<Memchr<'_>> {
+    memchr_iter(n1, haystack).rev()
+}
+
+pub mod memmem {
+    //! naive substring search with the documented contract of `memchr::memmem`
+    pub fn find(haystack: &[u8], needle: &[u8]) -> Option<usize> {
+        if needle.len() > haystack.len() { return None; }
+        let mut i = 0;
+        while i + needle.len() <= haystack.len() {
+            let mut j = 0;
+            while j < needle.len() && haystack[i + j] == needle[j] { j += 1; }
+            if j == needle.len() { return Some(i); }
+            i += 1;
+        }
+        None
+    }
+    pub fn rfind(haystack: &[u8], needle: &[u8]) -> Option<usize> {
+        if needle.len() > haystack.len() { return None; }
+        let mut i = haystack.len() - needle.len() + 1;
+        while i > 0 {
+            i -= 1;
+            let mut j = 0;
+            while j < needle.len() && haystack[i + j] == needle[j] { j += 1; }
+            if j == needle.len() { return Some(i); }
+        }
+        None
+    }
+}
